@@ -32,6 +32,8 @@ type vzOracles struct {
 
 	// the chain as the correct nodes finalized it (C03)
 	finalized          map[uint64]string
+	honestPH           map[string]bool            // hashes of proposed headers authored by correct validators (C07 completeness)
+	enterPHs           map[string]map[string]bool // node incarnation/h/r -> hashes of the proposed headers in the view the state machine entered the round with
 	committedByCorrect map[uint64]string // first hash a correct node recorded as committed, per height (H-NET)
 
 	// what the chain prescribes as validator set per height (C01, C07): height -> set
@@ -406,6 +408,14 @@ func (o *vzOracles) onEnterRound(nd *vzNode, rv tmconsensus.RoundView) {
 	o.mu.Lock()
 	defer o.mu.Unlock()
 	if !nd.byz {
+		if o.enterPHs == nil {
+			o.enterPHs = map[string]map[string]bool{}
+		}
+		m := map[string]bool{}
+		for _, ph := range rv.ProposedHeaders {
+			m[string(ph.Header.Hash)] = true
+		}
+		o.enterPHs[fmt.Sprintf("%s/%d/%d", nd.ident(), rv.Height, rv.Round)] = m
 		o.checkViewValidators(nd, "strategy.EnterRound", rv.Height, rv.ValidatorSet)
 		// the round view the state machine entered the round with (the mirror's answer to its entrance)
 		o.noteSMKnown(nd, rv.Height, rv.Round, rv.PrevoteProofs, rv.PrecommitProofs)
@@ -588,7 +598,80 @@ func (o *vzOracles) onGossipUpdate(nd *vzNode, u tmelink.NetworkViewUpdate) {
 	}
 }
 
+// appSet is the validator set the application prescribes for height h: the genesis set for the
+// first two heights, afterwards what the driver returned when it finalized h-2.
+func (o *vzOracles) appSet(h uint64) tmconsensus.ValidatorSet {
+	if h <= o.w.cfg.initialHeight+1 {
+		return o.w.fx.ValSet()
+	}
+	vs, err := tmconsensus.NewValidatorSet(o.w.nextValidators(h-2), o.w.fx.HashScheme)
+	if err != nil {
+		panic(err)
+	}
+	return vs
+}
+
+// checkOwnProposal (C07): the header the local state machine proposes carries exactly the sets the
+// driver returned (for h: at the finalization of h-2, for h+1: at the finalization of h-1).
+func (o *vzOracles) checkOwnProposal(nd *vzNode, ph tmconsensus.ProposedHeader) {
+	if !o.on["C07"] || nd.byz || o.w.s.Stopped() {
+		return
+	}
+	h := ph.Header.Height
+	if d := vzDiffValSet(o.appSet(h), ph.Header.ValidatorSet); d != "" {
+		o.violate("C07", "own-proposal/validator-set", "%s proposed a header for height %d whose validator set differs from what the driver returned for that height in %s", nd.ident(), h, d)
+	}
+	if d := vzDiffValSet(o.appSet(h+1), ph.Header.NextValidatorSet); d != "" {
+		o.violate("C07", "own-proposal/next-validator-set", "%s proposed a header for height %d whose next validator set differs from what the driver returned when finalizing height %d in %s", nd.ident(), h, h-1, d)
+	}
+}
+
+// onStrategyAsked (C07): what the state machine lets its consensus strategy choose from. It filters
+// the round's proposed headers by the validator sets it works with at that height: nothing with other
+// sets may get through, and an honest proposal that was in the view it entered the round with must.
+func (o *vzOracles) onStrategyAsked(nd *vzNode, kind string, h uint64, r uint32, phs []tmconsensus.ProposedHeader) {
+	if !o.on["C07"] || nd.byz || o.w.s.Stopped() || h == 0 {
+		return
+	}
+	o.mu.Lock()
+	defer o.mu.Unlock()
+	have := map[string]bool{}
+	for _, ph := range phs {
+		if ph.Header.Height != h {
+			continue
+		}
+		have[string(ph.Header.Hash)] = true
+		if d := vzDiffValSet(o.appSet(h), ph.Header.ValidatorSet); d != "" {
+			o.violate("C07", "strategy-offered/other-validator-set", "%s: %s at %d/%d was offered proposed header %x whose validator set differs from the one the driver returned for that height in %s", nd.ident(), kind, h, r, trunc(string(ph.Header.Hash)), d)
+		}
+		if d := vzDiffValSet(o.appSet(h+1), ph.Header.NextValidatorSet); d != "" {
+			o.violate("C07", "strategy-offered/other-next-validator-set", "%s: %s at %d/%d was offered proposed header %x whose next validator set differs from what the driver returned in %s", nd.ident(), kind, h, r, trunc(string(ph.Header.Hash)), d)
+		}
+	}
+	var missing []string
+	for hash := range o.enterPHs[fmt.Sprintf("%s/%d/%d", nd.ident(), h, r)] {
+		if o.honestPH[hash] && !have[hash] {
+			missing = append(missing, hash)
+		}
+	}
+	sort.Strings(missing)
+	for _, hash := range missing {
+		o.violate("C07", "honest-proposal-withheld-from-strategy", "%s: %s at %d/%d was not offered the honest proposal %x although it was in the view the state machine entered the round with (it is filtered by the validator sets the state machine works with at that height)", nd.ident(), kind, h, r, trunc(hash))
+	}
+}
+
 func (o *vzOracles) onSMAction(nd *vzNode, a tmeil.StateMachineRoundAction) {
+	if len(a.PH.Header.Hash) > 0 {
+		o.mu.Lock()
+		if !nd.byz {
+			if o.honestPH == nil {
+				o.honestPH = map[string]bool{}
+			}
+			o.honestPH[string(a.PH.Header.Hash)] = true
+		}
+		o.checkOwnProposal(nd, a.PH)
+		o.mu.Unlock()
+	}
 	// a vote handed to the mirror has been released, stored or not
 	o.mu.Lock()
 	e, ok := o.smEntered[nd.ident()]
